@@ -249,6 +249,12 @@ def check_dispatch_follows_header(facts, body, out):
                 pl = op_place(s['rv']['op'])
                 if pl is not None:
                     slice_locals(pl['l'], depth + 1, seen)
+            elif kind == 'assign' and s['rv']['k'] == 'aggr' and s['rv'].get('variant') in ('Some', 'Continue', 'Ok'):
+                # the header carried in an Option / ControlFlow between iterations
+                for o in s['rv'].get('ops', []):
+                    pl = op_place(o)
+                    if pl is not None:
+                        slice_locals(pl['l'], depth + 1, seen)
         return seen
 
     def non_payload_sources(l):
